@@ -1,2 +1,313 @@
-/- C17 driver (stub until the model exists) -/
-def main : IO Unit := pure ()
+/- C17 driver: op lines in, observable lines out (same format as props/C17/harness.cpp).
+
+  tree <tokens>      build a tree (replaces the current one).  Tokens, prefix notation:
+                       Fs Ff Fs:<tag> Ff:<tag>   FunctionAction returning true/false (reason "case:<tag>")
+                       Z<k>                      SleepAction(100k + 2·id + 1 ms)
+                       D                         DummyAction (completed by `emit`)
+                       ( <head> child… )         composite; heads: seq:all|anyf|anys  par:all|anyf|anys
+                                                 ife:tt|tf|ft  ift  sw:d|n  loop:fe|uf|us  lif:t|f
+                                                 rep:<n>:nb|bf|bs  wr:n|i|s|f  cmp
+                       any token may end in @<k>: setTimeout(100k + 2·id + 2 ms)      (id = preorder index)
+  do <call>…         control calls made back to back: start pause resume stop reset emit:<id>:s|f|b
+  defer <call>…      the same calls posted with runNext
+  adv <k>            clock += 100k ms        pass   nothing
+  cfg <abcd>         (debug) select the unrepaired code: a=fixPar b=fixReplay c=fixFin d=fixBlk, each 0/1
+
+After every op the rest of the loop pass runs (queued tasks) and the timer phase of the next pass.
+Output: `P e …` one line per event, then `P r=<call results> s=<state+result of every node>`.
+Property monitors evaluated on the model run (the implementation agrees line by line or the differ
+reports it) print `P MONITOR …` lines, which the harness never prints. -/
+import TboxModel.Util
+import TboxModel.C17.Model
+import TboxModel.C17.Spec
+open Tbox.Util Tbox.C17
+
+def mode3? : String → Option Mode3
+  | "all" => some .all | "anyf" => some .anyFail | "anys" => some .anySucc | _ => none
+
+def splitTmo (tok : String) : Option (String × Option Nat) :=
+  match tok.splitOn "@" with
+  | [b] => some (b, none)
+  | [b, k] => match k.toNat? with
+      | some k => if k ≤ 50 then some (b, some k) else none
+      | none => none
+  | _ => none
+
+def leafKind (b : String) (id : Nat) : Option Kind :=
+  match b.splitOn ":" with
+  | ["Fs"] => some (.func true none)
+  | ["Ff"] => some (.func false none)
+  | ["Fs", t] => match t.toNat? with | some t => if t ≤ 20 then some (.func true (some t)) else none | none => none
+  | ["Ff", t] => match t.toNat? with | some t => if t ≤ 20 then some (.func false (some t)) else none | none => none
+  | ["D"] => some .dummy
+  | [z] =>
+      if z.startsWith "Z" then
+        match (z.drop 1).toString.toNat? with
+        | some k => if k ≤ 50 then some (.sleep (100 * k + 2 * id + 1)) else none
+        | none => none
+      else none
+  | _ => none
+
+def headKind (b : String) : Option Kind :=
+  match b.splitOn ":" with
+  | ["seq", m] => (mode3? m).map .seq
+  | ["par", m] => (mode3? m).map .par
+  | ["ife", "tt"] => some (.ifElse true true)
+  | ["ife", "tf"] => some (.ifElse true false)
+  | ["ife", "ft"] => some (.ifElse false true)
+  | ["ift"] => some .ifThen
+  | ["sw", "d"] => some (.switch true)
+  | ["sw", "n"] => some (.switch false)
+  | ["loop", "fe"] => some (.loop .forever)
+  | ["loop", "uf"] => some (.loop .untilFail)
+  | ["loop", "us"] => some (.loop .untilSucc)
+  | ["lif", "t"] => some (.loopIf true)
+  | ["lif", "f"] => some (.loopIf false)
+  | ["rep", n, m] =>
+      match n.toNat? with
+      | some n =>
+        if n > 1000 then none else
+        match m with
+        | "nb" => some (.repeat_ n .noBreak) | "bf" => some (.repeat_ n .breakFail) | "bs" => some (.repeat_ n .breakSucc)
+        | _ => none
+      | none => none
+  | ["wr", "n"] => some (.wrapper .normal)
+  | ["wr", "i"] => some (.wrapper .invert)
+  | ["wr", "s"] => some (.wrapper .alwaysSucc)
+  | ["wr", "f"] => some (.wrapper .alwaysFail)
+  | ["cmp"] => some .composite
+  | _ => none
+
+def arityOk (k : Kind) (n : Nat) : Bool :=
+  match k with
+  | .seq _ | .par _ => true
+  | .ifElse a b => n == 1 + (if a then 1 else 0) + (if b then 1 else 0)
+  | .ifThen => n ≥ 2 && n % 2 == 0
+  | .switch _ => n ≥ 2
+  | .loopIf _ => n == 2
+  | .loop _ | .repeat_ _ _ | .wrapper _ | .composite => n == 1
+  | _ => n == 0
+
+def listToTL : List T → TL
+  | [] => .nil
+  | t :: ts => .cons t (listToTL ts)
+
+mutual
+/-- (tree, remaining tokens, next free id) -/
+partial def parseNode (toks : List String) (id : Nat) (depth : Nat) : Option (T × List String × Nat) :=
+  if depth > 6 then none else
+  match toks with
+  | [] => none
+  | "(" :: hd :: rest =>
+      match splitTmo hd with
+      | none => none
+      | some (b, tmo) =>
+        match headKind b with
+        | none => none
+        | some k =>
+          match parseChildren rest (id + 1) (depth + 1) [] with
+          | none => none
+          | some (cs, rest', nid) =>
+            if arityOk k cs.length then
+              some (.node { id := id, kind := k, tmo := tmo.map (fun x => 100 * x + 2 * id + 2) } (listToTL cs), rest', nid)
+            else none
+  | ")" :: _ => none
+  | tok :: rest =>
+      match splitTmo tok with
+      | none => none
+      | some (b, tmo) =>
+        match leafKind b id with
+        | none => none
+        | some k => some (.node { id := id, kind := k, tmo := tmo.map (fun x => 100 * x + 2 * id + 2) } .nil, rest, id + 1)
+partial def parseChildren (toks : List String) (id : Nat) (depth : Nat) (acc : List T) : Option (List T × List String × Nat) :=
+  match toks with
+  | ")" :: rest => some (acc.reverse, rest, id)
+  | [] => none
+  | _ =>
+    match parseNode toks id depth with
+    | none => none
+    | some (t, rest, nid) => parseChildren rest nid depth (t :: acc)
+end
+
+def parseTree (toks : List String) : Option (T × Nat) :=
+  match parseNode toks 0 0 with
+  | some (t, [], n) => if n ≤ 40 then some (t, n) else none
+  | _ => none
+
+def parseCall (n : Nat) (w : String) : Option Call :=
+  match w.splitOn ":" with
+  | ["start"] => some .start | ["pause"] => some .pause | ["resume"] => some .resume
+  | ["stop"] => some .stop | ["reset"] => some .reset
+  | ["emit", i, x] =>
+      match i.toNat? with
+      | some i =>
+        if i ≥ n then none else
+        match x with
+        | "s" => some (.emitFin i true) | "f" => some (.emitFin i false) | "b" => some (.emitBlk i)
+        | _ => none
+      | none => none
+  | _ => none
+
+mutual
+partial def snapshot : T → String
+  | .node d cs =>
+    (match d.st with | .idle => "I" | .running => "R" | .pause => "P" | .finished => "F" | .stoped => "S") ++
+    (match d.res with | .unsure => "?" | .success => "+" | .fail => "-") ++ snapshotL cs
+partial def snapshotL : TL → String
+  | .nil => ""
+  | .cons t ts => snapshot t ++ snapshotL ts
+end
+
+def showEv : Ev → String
+  | .fn n => s!"fn {n}"
+  | .final n => s!"final {n}"
+  | .dcb n c => (match c with | 0 => "dstart " | 1 => "dstop " | 2 => "dpause " | 3 => "dresume " | _ => "dreset ") ++ toString n
+  | .rootFin s w _ => s!"fin {if s then 1 else 0} {w}"
+  | .rootBlk w _ => s!"blk {w}"
+  | .ret b => s!"ret {if b then 1 else 0}"
+  | .rst n => s!"rst {n}"
+
+def isGhost : Ev → Bool
+  | .rst _ => true
+  | _ => false
+
+/-! property monitors on the model state -/
+
+mutual
+/-- all nodes with their subtree -/
+partial def nodesOf : T → List (Node × TL)
+  | .node d cs => (d, cs) :: nodesOfL cs
+partial def nodesOfL : TL → List (Node × TL)
+  | .nil => []
+  | .cons t ts => nodesOf t ++ nodesOfL ts
+end
+
+/-- after stop or finish no descendant is left running or paused -/
+def quiescentViolations (t : T) : List Nat :=
+  (nodesOf t).filterMap fun (d, cs) =>
+    if (d.st == .finished || d.st == .stoped) && (nodesOfL cs).any (fun x => x.1.underway) then some d.id else none
+
+/-- an idle (never started or reset) action has nothing queued, nothing armed, and idle descendants -/
+def idleViolations (t : T) : List Nat :=
+  (nodesOf t).filterMap fun (d, cs) =>
+    if d.st == .idle && (!d.tasks.isEmpty || d.tmoAt.isSome || d.sleepAt.isSome || d.curr.isSome || d.held.isSome
+        || !d.finished.isEmpty || !d.heldPar.isEmpty
+        || (nodesOfL cs).any (fun x => x.1.st != .idle || !x.1.tasks.isEmpty)) then some d.id else none
+
+mutual
+partial def hasPar : T → Bool
+  | .node d cs => d.isPar || hasParL cs
+partial def hasParL : TL → Bool
+  | .nil => false
+  | .cons t ts => hasPar t || hasParL ts
+end
+
+structure DS where
+  tree : Option (T × Nat) := none
+  g : G := {}
+  cfg : Cfg := {}
+  plain : Bool := true          -- only `do start` once, adv, pass so far: the evaluator applies
+  started : Bool := false
+  rootFins : Nat := 0           -- finish callbacks of the root since its last reset
+  finals : List Nat := []       -- nodes whose final callback ran since their last reset
+  nops : Nat := 0
+
+def stateLetter (t : T) : St := t.data.st
+
+/-- process the events of one op in order, maintaining the once-per-run monitors -/
+def monitorEvents (ds : DS) (evs : List Ev) (_t : T) : DS × List String :=
+  evs.foldl (fun (p : DS × List String) e =>
+    let (ds, out) := p
+    match e with
+    | .rootFin _ _ _ =>
+        if ds.rootFins ≥ 1 then (ds, out ++ ["P MONITOR finish-notification-delivered-twice-in-one-run"])
+        else ({ ds with rootFins := ds.rootFins + 1 }, out)
+    | .final n =>
+        if ds.finals.contains n then (ds, out ++ [s!"P MONITOR final-callback-twice-in-one-run node={n}"])
+        else ({ ds with finals := n :: ds.finals }, out)
+    | .rst n => ({ ds with finals := ds.finals.erase n, rootFins := if n == 0 then 0 else ds.rootFins }, out)
+    | _ => (ds, out)) (ds, [])
+  |> fun (ds, out) =>
+    -- a delivered notification must belong to the current run: the root is finished / paused by block
+    -- a delivered notification must belong to the current run
+    let stale := evs.filterMap fun e =>
+      match e with
+      | .rootFin _ _ st => if st != .finished then some "P MONITOR stale-finish-notification (root was not finished)" else none
+      | .rootBlk _ st => if st == .idle || st == .stoped then some "P MONITOR stale-block-notification (root was idle or stopped)" else none
+      | _ => none
+    (ds, out ++ stale)
+
+def stepLine (ds : DS) (line : String) : DS × List String :=
+  let ws := words line
+  match ws with
+  | [] => (ds, [])
+  | "case" :: _ => ({}, [line.trimAscii.toString])
+  | ["cfg", bits] =>
+      match bits.toList with
+      | [a, b, c, e] =>
+          if [a, b, c, e].all (fun x => x == '0' || x == '1') && ds.tree.isNone then
+            ({ ds with cfg := { fixPar := a == '1', fixReplay := b == '1', fixFin := c == '1', fixBlk := e == '1' } }, ["P cfg"])
+          else (ds, ["bad-op"])
+      | _ => (ds, ["bad-op"])
+  | "tree" :: toks =>
+      match parseTree toks with
+      | none => (ds, ["bad-op"])
+      | some (t, n) =>
+          ({ tree := some (t, n), g := { cfg := ds.cfg }, cfg := ds.cfg, nops := ds.nops },
+           [s!"P tree n={n} s={snapshot t}"])
+  | opw :: args =>
+    match ds.tree with
+    | none => (ds, ["bad-op"])
+    | some (t, n) =>
+      let op? : Option Op :=
+        match opw, args with
+        | "do", _ :: _ => (args.mapM (parseCall n)).map .calls
+        | "defer", _ :: _ => (args.mapM (parseCall n)).map .defer
+        | "adv", [k] => match k.toNat? with | some k => if k ≤ 100 then some (.adv (100 * k)) else none | none => none
+        | "pass", [] => some .pass
+        | _, _ => none
+      match op? with
+      | none => (ds, ["bad-op"])
+      | some op =>
+        let g0 := { ds.g with log := [] }
+        let (t', g', rs) := step t g0 op
+        let evs := g'.log.reverse
+        -- resets clear the once-per-run monitors of the nodes that are idle again
+        let isPlainOp := match op with
+          | .calls [.start] => !ds.started
+          | .adv _ | .pass => true
+          | _ => false
+        let ds := { ds with plain := ds.plain && isPlainOp,
+                            started := ds.started || (match op with | .calls _ | .defer _ => true | _ => false) }
+        let (ds, mon) := monitorEvents ds evs t'
+        let q := quiescentViolations t'
+        let iv := idleViolations t'
+        let mon := mon ++ (if q.isEmpty then [] else [s!"P MONITOR descendant-left-underway-below-ended-node {q}"])
+                       ++ (if iv.isEmpty then [] else [s!"P MONITOR idle-node-not-fresh {iv}"])
+        -- the documented meaning, for runs without control calls
+        let spec :=
+          if ds.plain && evalOk t then
+            match evs.find? (fun e => match e with | .rootFin _ _ _ => true | _ => false), eval t with
+            | some (.rootFin s w _), some (s', w') =>
+                if s == s' && w == w' then ["B spec-agree"] else [s!"P MONITOR result-differs-from-documented-meaning doc={s'} {w'}"]
+            | some _, none => ["P MONITOR finished-although-documented-meaning-diverges"]
+            | _, _ => []
+          else []
+        let rstr := if rs.isEmpty then "-" else String.join (rs.map fun b => if b then "1" else "0")
+        let tags := (match op with
+            | .calls cs => cs.map fun c => match c with
+                | .start => "c-start" | .pause => "c-pause" | .resume => "c-resume" | .stop => "c-stop" | .reset => "c-reset"
+                | .emitFin _ _ => "c-emitfin" | .emitBlk _ => "c-emitblk"
+            | .defer _ => ["defer"] | .adv _ => ["adv"] | .pass => ["pass"])
+          ++ (if (nodesOf t').any (fun x => x.1.held.isSome) then ["held-back"] else [])
+          ++ (if (nodesOf t').any (fun x => !x.1.heldPar.isEmpty) then ["held-back-par"] else [])
+          ++ (if (nodesOf t').any (fun x => x.1.tasks.any (fun k => match k.2 with | .replay _ | .replayPar => true | _ => false)) then ["replay-queued"] else [])
+          ++ (if evs.any (fun e => match e with | .rootFin _ _ _ => true | _ => false) then ["root-fin"] else [])
+          ++ (if evs.any (fun e => match e with | .rootBlk _ _ => true | _ => false) then ["root-blk"] else [])
+          ++ (if (nodesOf t').any (fun x => x.1.tmoAt.isSome) then ["tmo-armed"] else [])
+          ++ (if (nodesOf t').any (fun x => x.1.res == .fail && x.1.tmo.isSome && x.1.st == .finished) then ["tmo-node-failed"] else [])
+        ({ ds with tree := some (t', n), g := g', nops := ds.nops + 1 },
+         ["B " ++ " ".intercalate tags] ++ spec.filter (·.startsWith "B ") ++ (evs.filter (fun e => !isGhost e)).map (fun e => "P e " ++ showEv e)
+           ++ mon ++ spec.filter (·.startsWith "P ") ++ [s!"P r={rstr} s={snapshot t'}"])
+
+def main : IO Unit := runDriver ({} : DS) stepLine
